@@ -201,7 +201,13 @@ def r2_single_funnel(w):
             if p.endswith('Typstyle::new'):
                 v = v or c.view(b)
                 d = v.describe_operand(t['args'][0])
-                if re.match(r'^call:typstyle::fmt::\{impl#\d+\}::to_config\(field:typstyle::cli::CliArguments\.style\)$', d):
+                # the mapping's result, possibly kept in a local and cloned per use (`let config = args.style.to_config(); .. Typstyle::new(config.clone())`)
+                tc = _to_config(c)
+                srcs = v.pv.through(v.pv.origins_operand(t['args'][0]), re.compile(r'Clone>::clone$|Clone::clone$|Deref>::deref$|Deref::deref$|::borrow$'))
+                via_mapping = bool(srcs) and all(o[0] == 'call' and not o[2] and resolved_id(v.pv.call_term(o)) == tc.id
+                                                 and v.describe_operand(v.pv.call_term(o)['args'][0]) in ('field:typstyle::cli::CliArguments.style', '&field:typstyle::cli::CliArguments.style')
+                                                 for o in srcs)
+                if re.match(r'^call:typstyle::fmt::\{impl#\d+\}::to_config\(field:typstyle::cli::CliArguments\.style\)$', d) or via_mapping:
                     r.ok(cons, 'configured by to_config(args.style)')
                 else:
                     r.bad(cons, '%s|config' % b.short, 'Typstyle::new in %s is configured from %s, not from the option mapping' % (b.short, d), b.loc(t['span']))
@@ -252,9 +258,10 @@ def r3_bytes_out(w):
             continue
         # which result variant dominates the print?
         variant = None
-        for atom, vals, s in v.guards(bi):
-            if atom.startswith('discr(call:typstyle::fmt::format_debug'):
-                variant = vals
+        for atom, vals, s in v.guards_ext(bi):
+            if atom.startswith('discr(call:typstyle::fmt::format_debug') or (vals and all(isinstance(x, str) for x in vals) and set(vals) <= {'Changed', 'Unchanged', 'Erroneous'}
+                                                                             and isinstance(s, int)):
+                variant = vals if variant is None else (set(variant) & set(vals))
         if variant is None:
             # join block of several variants: look at the provenance only
             variant = set()
@@ -316,7 +323,7 @@ def r3_bytes_out(w):
             if level <= {'Error', 'Warn'}:
                 r.ok(cons, 'goes to stderr')
                 continue
-            gs = fv.guards(bi)
+            gs = fv.guards_ext(bi)
             if any((atom == CHECK or atom == INPLACE) and vals == {True} for atom, vals, _ in gs):
                 r.ok(cons, 'only in check / in-place mode, where nothing formatted is printed')
             else:
@@ -344,7 +351,7 @@ def r3_bytes_out(w):
                         r.bad(cons, '%s|payload|%s' % (fb.short, vn), 'FormatResult::%s carries %s, expected %s' % (vn, sorted(tags), sorted(want)), fb.loc(s['span']))
                     if vn == 'Erroneous':
                         # only on the Err edge of the library call
-                        gs = v.guards(bi)
+                        gs = v.guards_ext(bi)
                         if any(a.startswith('discr(call:typstyle_core::') and vals == {'Err'} for a, vals, _ in gs):
                             r.ok({'fn': fb.short, 'Erroneous': 'guard'}, 'constructed only when the library refuses')
                         else:
@@ -479,10 +486,10 @@ def r4_fallback(w):
             prim_keys = {(x[0], x[1]) for x in prim}
 
             def on_err_edge(block):
-                for atom, vals, sbb in v.guards(block):
+                for atom, vals, sbb in v.guards_ext(block):
                     if vals != {'Err'}:
                         continue
-                    for o in v.pv.origins_operand(b.blocks[sbb]['term']['discr']):
+                    for o in v.pv.origins_operand(v.guard_operand((atom, vals, sbb))):
                         o = strip_casts(o)
                         if o[0] == 'discr' and any((y[0], y[1]) in prim_keys for y in v.pv.peel(v.pv._origins(o[1][0], o[1][1], frozenset()))):
                             return True
